@@ -43,6 +43,7 @@ public:
     }
 
     void set_begin_epoch(const Epoch epoch) {
+        YAKUSHIMA_VERIF_POINT(6);
         begin_epoch_.store(epoch, std::memory_order_relaxed);
     }
 
